@@ -136,10 +136,10 @@ def from_hif_dict(data, nodetype=None, edgetype=None):
             else:
                 attr = {}
 
+            # no **attr: an attribute may be named like a parameter ("node")
             if n not in H._node:
-                H.add_node(n, **attr)
-            else:
-                H.set_node_attributes({n: attr})
+                H.add_node(n)
+            H.set_node_attributes({n: attr})
 
     # import edge attributes if they exist
     if "edges" in data:
@@ -149,10 +149,10 @@ def from_hif_dict(data, nodetype=None, edgetype=None):
                 attr = record["attrs"]
             else:
                 attr = {}
+            # no **attr: an attribute may be named like a parameter ("members", "idx")
             if e not in H._edge:
-                H.add_edge(_empty_edge(network_type), e, **attr)
-            else:
-                H.set_edge_attributes({e: attr})
+                H.add_edge(_empty_edge(network_type), e)
+            H.set_edge_attributes({e: attr})
 
     if network_type == "asc":
         H = SimplicialComplex(H)
